@@ -24,12 +24,14 @@ type Op struct {
 	resume   chan struct{}
 	done     chan struct{}
 	isParked bool // owned by the driver goroutine
+	SubParks int  // parks at sub-gates (ns:*) since the last protocol gate; owned by the operation's goroutine
 }
 
 type Sched struct {
 	mu        sync.Mutex
 	ops       map[int64]*Op
 	Gates     func(point string) bool          // which points park controlled operations
+	GatesOp   func(point string, op *Op) bool  // if set, decides instead of Gates (sees the operation)
 	TaskStop  func(node uint64) <-chan struct{} // periodic task loops park until this closes (nil: run free)
 	Perturb   func(point string, node uint64)  // free-running mode: schedule perturbation
 	StepWait  time.Duration
@@ -68,7 +70,11 @@ func (s *Sched) At(point string, node uint64) {
 		}
 		return
 	}
-	if s.Gates == nil || !s.Gates(point) {
+	if s.GatesOp != nil {
+		if !s.GatesOp(point, op) {
+			return
+		}
+	} else if s.Gates == nil || !s.Gates(point) {
 		return
 	}
 	op.parked <- point + "@" + strconv.FormatUint(node, 10)
